@@ -438,6 +438,14 @@ class EvalMixin(object):
         return acc
 
     def compare(self, op, a, b, line=0):
+        for x, y in ((a, b), (b, a)):
+            h = getattr(x, 'bsvc_compare', None)
+            if h is not None and op in ('==', '!='):
+                r = h(self, y)
+                if r is not NotImplemented:
+                    if op == '==':
+                        return r
+                    return (not r) if isinstance(r, bool) else tm.not_(r)
         if op in ('is', 'is_not'):
             if isinstance(a, T) or isinstance(b, T):
                 if a is None or b is None:
